@@ -576,6 +576,25 @@ apply call, at the wrapper's scope; every Linen `apply` starts its counters at 0
 def linenRngsDict (scopePath : Path) (rngs : Keys) : List (String × KeyT) :=
   rngs.map fun e => (e.1, .linen (.base e.2) scopePath 0)
 
+/-- the per-stream `make_rng` counters of the Linen scope a ToLinen instance lives in; they are state of
+one Linen `init`/`apply` and are threaded through the calls of the instance inside it -/
+abbrev ScopeCounters := List (String × Nat)
+
+def ScopeCounters.get (c : ScopeCounters) (n : String) : Nat :=
+  ((c.find? fun e => e.1 = n).map (·.2)).getD 0
+
+/-- `linen_rngs_dict(self)` with the scope's counters spelled out: one `make_rng(name)` per stream, each
+advancing that stream's counter -/
+def linenRngsDictC (scopePath : Path) (rngs : Keys) (c : ScopeCounters) : List (String × KeyT) × ScopeCounters :=
+  (rngs.map fun e => (e.1, .linen (.base e.2) scopePath (c.get e.1)),
+   rngs.map fun e => (e.1, c.get e.1 + 1))
+
+/-- the key dicts handed to `nnx.reseed` by `n` consecutive calls of one ToLinen instance inside a single
+Linen `init`/`apply` -/
+def callKeyDicts (scopePath : Path) (rngs : Keys) : Nat → ScopeCounters → List (List (String × KeyT))
+  | 0, _ => []
+  | n + 1, c => (linenRngsDictC scopePath rngs c).1 :: callKeyDicts scopePath rngs n (linenRngsDictC scopePath rngs c).2
+
 /-- the wrapped NNX class, abstractly. `γ` is the graph definition (static structure, opaque):
 `construct` is `nnx.split(nnx_class(*args, rngs=…))`, `call g s x` is `nnx.merge(g, s)`, the call, and
 `nnx.split` again; `reseed` is `nnx.reseed` acting on the state's RNG Variables -/
